@@ -56,14 +56,15 @@ DigitsOf(V, j, e) == Norm([i \in 1..(e - j) |-> V[j + i] - 48])
 \* integer types: bits and signedness
 TypeBits(ty) == CASE ty \in {"i8", "u8"} -> 8 [] ty \in {"i16", "u16"} -> 16 [] ty \in {"i32", "u32"} -> 32
                   [] ty \in {"i64", "u64", "isize", "usize"} -> 64 [] ty \in {"i128", "u128"} -> 128
+                  [] ty = "u256" -> 256      \* a user-defined integer type: the scanners are generic
 TypeSigned(ty) == ty \in {"i8", "i16", "i32", "i64", "i128", "isize"}
 \* largest magnitude representable on the non-negative / negative side
 MaxMag(ty) == IF TypeSigned(ty) THEN Pred(Pow2(TypeBits(ty) - 1)) ELSE Pred(Pow2(TypeBits(ty)))
 MinMag(ty) == IF TypeSigned(ty) THEN Pow2(TypeBits(ty) - 1) ELSE <<0>>
 Types == {"i8", "i16", "i32", "i64", "i128", "isize", "u8", "u16", "u32", "u64", "u128", "usize"}
 \* constant tables (evaluated once)
-MaxMagT == [ty \in Types |-> MaxMag(ty)]
-MinMagT == [ty \in Types |-> MinMag(ty)]
+MaxMagT == [ty \in Types \cup {"u256"} |-> MaxMag(ty)]
+MinMagT == [ty \in Types \cup {"u256"} |-> MinMag(ty)]
 
 \* ascii_digits: <<representable, negative, magnitude digits, end offset>>
 UDigits(V, j, ty) ==
